@@ -377,6 +377,10 @@ void on_event(int task, int kind, long pnum, long a, long b, long c, const void 
     }
     case SLU_EV_PIVOT: {
         long j = a;
+        // I8 (see SNODE_RELEASE): columns of the caller's own panel that are taken or pivoted but not yet released still carry their flag
+        if (me.panel >= 0) for (long k = me.panel; k < me.panel + me.w && k < N; ++k)
+            if (col_state[k] != C_RELEASED && col_owner[k] == task && shared->spin_locks[k] == 0) { viol("C03", "busy_flag_cleared_before_release", fmt("column %ld of panel %ld is not released but its flag is down (seen when column %ld is pivoted)", k, me.panel, j)); break; }
+        probes["busy_flag_checks"]++;
         if (++pivots[j] != 1) viol("C04", "column_pivoted_twice", fmt("column %ld pivoted %d times", j, pivots[j]));
         if (col_owner[j] != task) viol("C04", "pivot_by_non_owner", fmt("column %ld pivoted by a task that does not own it", j));
         if (b == 0) stop("C06", "pivot_empty_candidate_set", fmt("column %ld has no candidate row at all (nsupr == nsupc == %ld): the pivot search would read past the supernode's row list", j, c));
@@ -397,6 +401,7 @@ void on_event(int task, int kind, long pnum, long a, long b, long c, const void 
     }
     case SLU_EV_PIVOT_DONE: col_state[a] = C_PIVOTED; break;
     case SLU_EV_COL_RELEASE:
+        if (shared->spin_locks[a] == 0) viol("C03", "busy_flag_cleared_before_release", fmt("the flag of column %ld is already down when its release step starts", a));
         if (col_state[a] != C_PIVOTED) viol("C03", "release_before_pivot", fmt("column %ld released in state %d", a, col_state[a]));
         break;
     case SLU_EV_COL_RELEASED:
@@ -405,6 +410,9 @@ void on_event(int task, int kind, long pnum, long a, long b, long c, const void 
         break;
     case SLU_EV_SNODE_RELEASE:
         for (long j = a; j < a + b && j < N; ++j) {
+            // I8: the busy flag of a column goes down in the release step and nowhere else - everything the owner still writes for the column
+            // (second subscript copy, xlsub/xprune of a relaxed supernode) comes before that step, and a waiter proceeds the moment the flag drops
+            if (shared->spin_locks[j] == 0) viol("C03", "busy_flag_cleared_before_release", fmt("relaxed supernode %ld: the flag of column %ld is already down when the release step starts", a, j));
             if (col_state[j] != C_PIVOTED) viol("C03", "release_before_pivot", fmt("relaxed supernode %ld: column %ld released in state %d", a, j, col_state[j]));
             col_state[j] = C_RELEASED; ++releases[j]; ++released_total;
         }
